@@ -575,6 +575,20 @@ Qed.
 
 End Choice.
 
+(** with the stateless level-indexed choice of the harness (and of
+    [pick_cube_dd_set]) the value at every asked step is the table's entry *)
+Lemma run_mask_vals : forall m s st e tr st', Run unit (mask_choice m) s st e tr st' ->
+  forall p, In p tr -> sp_asked p = true -> sp_val p = Some (m (sp_level p)).
+Proof.
+  intros m s st e tr st' R.
+  induction R as [st e Ev | st e l t x c tr st' Ev Ff R IH | st e l t x c st1 tr st' Ev Ft Fx Ec R IH];
+    intros p Hp Ha.
+  - destruct Hp.
+  - destruct Hp as [<-|Hp]; [discriminate | apply IH; assumption].
+  - destruct Hp as [<-|Hp]; [|apply IH; assumption].
+    simpl. unfold mask_choice in Ec. inversion Ec. reflexivity.
+Qed.
+
 (** *** [pick_cube_dd_set] with a literal set that is a cube diagram *)
 
 (** [set] is the diagram of the conjunction of the literals [L] (top-down) *)
